@@ -51,6 +51,13 @@ def firstFrom (c : List Level) (j : Nat) (x : Name) : Option Nat :=
 def attrAt (c : List Level) (i : Nat) (x : Name) : Option Val :=
   (c[i]?).bind (fun l => l.attrs.lookup x)
 
+/-- the module attribute `x` of the least level `i` with `j ≤ i < k` that has one (the chain as far as it is
+built when `k` templates are attached) -/
+def firstAttrUpTo (c : List Level) (k j : Nat) (x : Name) : Option Val :=
+  match firstIdx (fun i => (attrAt c i x).isSome) j (k - j) with
+  | some i => attrAt c i x
+  | none => none
+
 /-- the module attribute `x` of the least level `i ≥ j` that has one -/
 def firstAttr (c : List Level) (j : Nat) (x : Name) : Option Val :=
   match firstIdx (fun i => (attrAt c i x).isSome) j (c.length - j) with
